@@ -47,6 +47,9 @@ FORMULAS = [
     "y ~ I(center(x) ** 2):h + standardize(w) + (scale(x) | g:g2)",
     "y ~ hlp.f(x) + fun(z) + s",
     "y ~ center(xz) + scale(xz):h + (1 | g2) + (standardize(xz) | g)",  # xz has mean exactly 0; g2 is evaluated before g
+    "y ~ s:h:g2 + x",  # margins missing: helper terms are created from sets of factors (hash order must not show)
+    "y ~ z + (1 | gn)",  # gn has missing values and is used by this formula only
+    "y ~ 0 + x:s:h:g2 + (0 + s:h | g)",
 ]
 MODES = ["error", "warning", "silent"]
 LV_K = [10, 3, 7]
@@ -154,6 +157,7 @@ def make_frames():
         xz = np.concatenate([-half, half] + ([np.zeros(1)] if n % 2 else []))
         rng.shuffle(xz)
         df["xz"] = xz if j != 2 else xz + 1.0  # exactly zero mean, except in frame 2
+        df["gn"] = df["g"].where(~df.index.isin([0, 3, n - 1]))
         if j == 1:
             df.index = pd.Index([f"r{i}" for i in range(n)][::-1])
         out.append(df)
@@ -591,10 +595,12 @@ def run_shard(i, n, tier, seed, m):
         run_history(hist, frames, m, faults={j: nth})
     # real fresh subprocesses with other hash seeds: determinism across processes
     nsub = (2 if tier == "quick" else 6) if i < 8 else 0
-    for t in range(nsub):
-        hist = random_history(rng, len(FORMULAS), len(frames))
+    # every formula once on its own (shard j % n), then random histories
+    subs = [[["B", j, 0], ["EC", 0, 3], ["EG", 0, 3]] for j in range(len(FORMULAS)) if j % n == i]
+    subs += [random_history(rng, len(FORMULAS), len(frames)) for _ in range(nsub)]
+    for hist in subs:
         digs = []
-        for hs in ("1", "4242"):
+        for hs in ("1", "4242", str(rng.randrange(10 ** 6))):
             env = core.child_env({"PYTHONHASHSEED": hs})
             p = subprocess.run([sys.executable, "-c", SUBPROC, json.dumps(hist)], env=env, capture_output=True,
                                text=True, timeout=300, cwd=core.VERIF)
@@ -603,7 +609,7 @@ def run_shard(i, n, tier, seed, m):
         m.ev("deterministic-across-processes")
         # and the same history in this process
         mine = digest_history(hist, frames)
-        if not (digs[0] == digs[1] == mine):
+        if not (digs[0] == digs[1] == digs[2] == mine):
             m.violation("deterministic-across-processes", f"history digests differ: {digs} vs in-process {mine}",
                         case={"history": hist}, key="nondeterministic")
 
